@@ -12,6 +12,17 @@ Streams (model = lean/PV/Model/Imperative.lean through the driver ops `imp-*`):
                 of every span, layered DAGs, diamonds on chains, ladders, each listed in dependency
                 order, consumers first, interleaved and shuffled, also after (repeated) fusion;
                 thorough tier: every DAG on <= 5 statements in every listing order
+  derived-statements
+                histories on long-lived statement objects (driver op `imp-hist`): the streams the
+                utilities RETURN are kept in registers and used again — disambiguated /
+                fused / fused with themselves / sent through map_expressions / copied with one
+                field replaced / asked for their sets in between or only at the end; identifiers
+                that occur at ONE position only (condition / rhs / lhs index / target) and clash.
+                Every returned statement must report the reads / writes of the fields it holds
+                now (`judge_rw`, keys `derived-*`); every step is judged by the oracle of the
+                stream that owns the operation, on the real objects earlier steps returned.
+                The same check on returned statements is part of the `fuse` and `disambiguate`
+                oracles (`judge_derived`).
 
 T-gen (extract/imperative.py): the bodies of the five functions and of the statement-class methods
 are re-read from the source on every run (lean/PV/Generated/Imperative.lean) and the model is
@@ -185,20 +196,116 @@ def lhs_parts(lhs):
     return None
 
 
-def want_reads_writes(d):
-    """(reads, writes, index-only names) of a payload statement by the independent scan, or None
-    when the left-hand side is outside the property's quantifier"""
-    if d["k"] == "nop":
+def want_rw_exprs(k, lhs, rhs, cond):
+    """(reads, writes, index-only names) of a statement of kind `k` with the given left-hand side,
+    right-hand side and condition (expressions) by the independent scan, or None when the
+    left-hand side is outside the property's quantifier"""
+    if k == "nop":
         return set(), set(), set()
-    parts = lhs_parts(sx_to_expr(loads(d["lhs"])))
+    parts = lhs_parts(lhs)
     if parts is None:
         return None
     name, index = parts
-    main = scan_vars(sx_to_expr(loads(d["rhs"])))
-    if d["k"] == "casg":
-        main |= scan_vars(sx_to_expr(loads(d["cond"])))
+    main = scan_vars(rhs)
+    if k == "casg":
+        main |= scan_vars(cond)
     idx = scan_vars(index) if index is not None else set()
     return main | idx, {name}, idx - main
+
+
+def want_reads_writes(d):
+    """`want_rw_exprs` of a payload statement"""
+    if d["k"] == "nop":
+        return set(), set(), set()
+    return want_rw_exprs(d["k"], sx_to_expr(loads(d["lhs"])), sx_to_expr(loads(d["rhs"])),
+                         sx_to_expr(loads(d["cond"])) if d["k"] == "casg" else None)
+
+
+def stmt_kind(s):
+    from pymbolic.imperative.statement import Assignment, ConditionalAssignment, Nop
+    return {Nop: "nop", Assignment: "asg", ConditionalAssignment: "casg"}.get(type(s))
+
+
+def judge_rw(s, payload, prefix="", where=""):
+    """the property's read / written clause for ONE real statement object `s`: the sets it REPORTS
+    against the independent scan of the left-hand side, right-hand side and condition it HOLDS
+    NOW (its current attributes).  None, or a Failure; statements outside the quantifier (other
+    left-hand sides, node kinds the mappers do not take) are not judged.  `prefix` tells the
+    statements that came out of a utility (`derived-…`) from freshly constructed ones."""
+    k = stmt_kind(s)
+    if k is None:
+        return None
+    if k == "nop":
+        want, fields = (set(), set(), set()), ()
+    else:
+        fields = (s.lhs, s.rhs) + ((s.condition,) if k == "casg" else ())
+        want = want_rw_exprs(k, s.lhs, s.rhs, s.condition if k == "casg" else None)
+    if want is None or not all(in_fragment(e) for e in fields):
+        return None
+    reads, writes, idx_only = want
+    try:
+        got_r, got_w = set(s.get_read_variables()), set(s.get_written_variables())
+    except RecursionError:
+        raise
+    except Exception as ex:
+        return Failure(prefix + "reads-writes-raise", where + repr(ex), payload)
+    if got_w != writes:
+        return Failure(prefix + "written-set-differs",
+                       f"{where}{sstr(s)}: reports {sorted(got_w)}, scan finds {sorted(writes)}", payload)
+    if got_r != reads:
+        # a subscripted target `a[i] <- …` may also be said to read `a`: tolerated
+        if got_r - reads <= writes and reads <= got_r and lhs_parts(s.lhs)[1] is not None:
+            return None
+        missing = reads - got_r
+        if missing and missing <= idx_only and got_r <= reads:
+            return Failure("assignment-reads-ignore-lhs",
+                           f"{where}{sstr(s)}: reports reads {sorted(got_r)}, the scan of lhs/rhs/condition "
+                           f"finds {sorted(reads)} ({sorted(missing)} occur only in the lhs index)", payload)
+        return Failure(prefix + "read-set-differs",
+                       f"{where}{sstr(s)}: reports {sorted(got_r)}, scan finds {sorted(reads)}", payload)
+    return None
+
+
+KNOWN_KEYS = ("assignment-reads-ignore-lhs", "disambiguate-misses-lhs-only-identifier",
+              "disambiguate-fresh-name-hits-lhs-only-identifier")
+
+
+def judge_derived(stream, payload, where, only_new=True):
+    """`judge_rw` for every statement of a stream that came out of a utility, and the identifier
+    set the stream reports (`get_all_used_identifiers`) against the scan.  With `only_new` the
+    recorded finding (names that occur only in a left-hand-side index) is left to the stream
+    that owns it."""
+    from pymbolic.imperative.analysis import get_all_used_identifiers
+    first_known = None
+    allv, hidden, judged = set(), set(), True
+    for pos, s in enumerate(stream):
+        f = judge_rw(s, payload, "derived-", f"{where}, statement {pos} [{s.id}]: ")
+        if f is not None:
+            if f.key not in KNOWN_KEYS:
+                return f
+            first_known = first_known or f
+        k = stmt_kind(s)
+        w = None if k is None else want_rw_exprs(
+            k, getattr(s, "lhs", None), getattr(s, "rhs", None), getattr(s, "condition", None))
+        if w is None or (k != "nop" and not all(
+                in_fragment(e) for e in (s.lhs, s.rhs) + ((s.condition,) if k == "casg" else ()))):
+            judged = False
+            continue
+        allv |= w[0] | w[1]
+        hidden |= w[2]
+    if judged:
+        try:
+            got = set(get_all_used_identifiers(stream))
+        except RecursionError:
+            raise
+        except Exception as ex:
+            return Failure("derived-used-identifiers-raise", where + ": " + repr(ex), payload)
+        # names that occur only in left-hand-side indices may be missing (recorded finding)
+        if not (allv - hidden <= got <= allv):
+            return Failure("derived-used-identifiers-differ",
+                           f"{where}: get_all_used_identifiers reports {sorted(got)}, the scan of the "
+                           f"statements finds {sorted(allv)}", payload)
+    return None if only_new else first_known
 
 
 def stream_idents(ds):
@@ -485,6 +592,7 @@ class FuseStream(Stream):
         return "(" + " ".join([head] + maps) + ")"
 
     def oracle(self, pl):
+        last = None
         for a, b, fused, mapping in self._steps(pl):
             ids_a, ids_b = [s.id for s in a], [s.id for s in b]
             if len(set(ids_a)) != len(ids_a) or len(set(ids_b)) != len(ids_b):
@@ -496,7 +604,9 @@ class FuseStream(Stream):
             bad = check_fuse_step(a, b, fused, mapping)
             if bad is not None:
                 return Failure(bad[0], bad[1], pl)
-        return None
+            last = fused
+        # the fused statements report the reads / writes of the fields they hold
+        return judge_derived(last, pl, "fused stream") if last is not None else None
 
     def shrink(self, pl):
         st = pl["streams"]
@@ -568,25 +678,7 @@ class RWStream(Stream):
         for f in ("lhs", "rhs", "cond"):
             if f in pl and not in_fragment(sx_to_expr(loads(pl[f]))):
                 return None
-        reads, writes, idx_only = want
-        s = mk_stmt(pl)
-        try:
-            got_r, got_w = set(s.get_read_variables()), set(s.get_written_variables())
-        except Exception as ex:
-            return Failure("reads-writes-raise", repr(ex), pl)
-        if got_w != writes:
-            return Failure("written-set-differs", f"reports {sorted(got_w)}, scan finds {sorted(writes)}", pl)
-        if got_r != reads:
-            # a subscripted target `a[i] <- …` may also be said to read `a`: tolerated
-            if got_r - reads <= writes and reads <= got_r and lhs_parts(s.lhs)[1] is not None:
-                return None
-            missing = reads - got_r
-            if missing and missing <= idx_only and got_r <= reads:
-                return Failure("assignment-reads-ignore-lhs",
-                               f"{sstr(s)}: reports reads {sorted(got_r)}, the scan of lhs/rhs/condition "
-                               f"finds {sorted(reads)} ({sorted(missing)} occur only in the lhs index)", pl)
-            return Failure("read-set-differs", f"{sstr(s)}: reports {sorted(got_r)}, scan finds {sorted(reads)}", pl)
-        return None
+        return judge_rw(mk_stmt(pl), pl)
 
     def shrink(self, pl):
         if pl["k"] == "casg":
@@ -620,6 +712,88 @@ FILTERS = [
 def make_filter(f):
     ex = set(f["except"])
     return lambda name: (not f["default"]) if name in ex else f["default"]
+
+
+def disamb_in_quantifier(pl):
+    """(identifier sets of the first, of the second stream) of a disambiguation case
+    {"a", "b", "filter", "fuse"} by the independent scan, or None when the case lies outside the
+    property's quantifier"""
+    ia, ib = stream_idents(pl["a"]), stream_idents(pl["b"])
+    if ia is None or ib is None:
+        return None
+    exprs = [sx_to_expr(loads(d[f])) for d in pl["a"] + pl["b"] for f in ("lhs", "rhs", "cond")
+             if f in d]
+    if not all(in_fragment(e) for e in exprs) or any(has_zero_cse(e) for e in exprs):
+        return None
+    ids_b = [d["id"] for d in pl["b"]]
+    if pl["fuse"] and any(dep not in ids_b for d in pl["b"] for dep in d["deps"]):
+        return None
+    return ia, ib
+
+
+def judge_disamb(pl, idents, a, b, res, subst, idmap, payload):
+    """the property's disambiguation clauses for ONE call on the real objects `a`, `b` (whose
+    payload forms are pl["a"], pl["b"]) that returned `res`, `subst` (and `idmap` when fused)"""
+    ia, ib = idents
+    ids_a, ids_b = [d["id"] for d in pl["a"]], [d["id"] for d in pl["b"]]
+    flt = make_filter(pl["filter"])
+    all_a, vis_a = ia
+    all_b, vis_b = ib
+    hidden = (all_a - vis_a) | (all_b - vis_b)      # names that occur only in lhs indices
+    ren = {}
+    for k, v in subst.items():
+        if not isinstance(v, p.Variable):
+            return Failure("disambiguate-not-a-renaming", f"{k} -> {v!r}", payload)
+        ren[k] = v.name
+    want_keys = {n for n in all_a & all_b if flt(n)}
+
+    def classify(default_key, detail):
+        # the two recorded defects: a clash the code does not see because one side mentions
+        # the name only in a left-hand-side index; a fresh name that collides with such a name
+        lost = want_keys - set(ren)
+        if set(ren) <= want_keys and lost and all(n not in vis_a or n not in vis_b for n in lost):
+            return Failure("disambiguate-misses-lhs-only-identifier", detail, payload)
+        if set(ren) <= want_keys and any(v in hidden for v in ren.values()):
+            return Failure("disambiguate-fresh-name-hits-lhs-only-identifier", detail, payload)
+        return Failure(default_key, detail, payload)
+
+    if set(ren) != want_keys:
+        return classify("disambiguate-renames-wrong-set",
+                        f"renamed {sorted(ren)}, clashing identifiers that pass the filter: "
+                        f"{sorted(want_keys)}")
+    fresh = list(ren.values())
+    if len(set(fresh)) != len(fresh) or any(v in all_a | all_b for v in fresh):
+        return classify("disambiguate-name-not-fresh", f"renaming {ren}; identifiers in use "
+                        f"{sorted(all_a | all_b)}")
+    new_b = res[len(a):] if pl["fuse"] else res
+    if len(new_b) != len(b):
+        return Failure("disambiguate-length", f"{len(new_b)} statements from {len(b)}", payload)
+    if pl["fuse"]:
+        bad = check_fuse_step(a, new_b_before_fuse(b, ren), res, idmap) \
+            if len(set(ids_a)) == len(ids_a) and len(set(ids_b)) == len(ids_b) else None
+        if bad is not None:
+            return Failure("disfuse-" + bad[0], bad[1], payload)
+    for d, old, new in zip(pl["b"], b, new_b):
+        want = dict(d)
+        for f in ("lhs", "rhs", "cond"):
+            if f in d:
+                want[f] = rename_all(d[f], ren)
+        if not pl["fuse"]:
+            if new.id != old.id or new.depends_on != old.depends_on:
+                return Failure("disambiguate-touches-ids", f"{stmt_out(old)} became {stmt_out(new)}",
+                               payload)
+        w = mk_stmt({**want, "id": new.id, "deps": sorted(new.depends_on)})
+        if stmt_out(w) != stmt_out(new) or sstr(w) != sstr(new):
+            return Failure("disambiguate-inconsistent-renaming",
+                           f"{sstr(old)} became {sstr(new)}, renaming {ren} gives {sstr(w)}", payload)
+    after = stream_idents([stmt_payload(s) for s in new_b])
+    shared = {n for n in after[0] & all_a if flt(n)}
+    if shared:
+        return classify("disambiguate-still-shared", f"still shared afterwards: {sorted(shared)}")
+    # the statements that come back are statements like any other: what they REPORT as read and
+    # written is what a scan of the (renamed) left-hand side, right-hand side and condition finds
+    return judge_derived(res, payload, "returned by disambiguate_and_fuse" if pl["fuse"]
+                         else "returned by disambiguate_identifiers")
 
 
 class DisambStream(Stream):
@@ -694,74 +868,14 @@ class DisambStream(Stream):
         return f"({stream_out(res)} {sub} {pairs_out(sorted(idmap.items()))})"
 
     def oracle(self, pl):
-        ia, ib = stream_idents(pl["a"]), stream_idents(pl["b"])
-        if ia is None or ib is None:
-            return None
-        exprs = [sx_to_expr(loads(d[f])) for d in pl["a"] + pl["b"] for f in ("lhs", "rhs", "cond")
-                 if f in d]
-        if not all(in_fragment(e) for e in exprs) or any(has_zero_cse(e) for e in exprs):
-            return None
-        ids_a, ids_b = [d["id"] for d in pl["a"]], [d["id"] for d in pl["b"]]
-        if pl["fuse"] and any(dep not in ids_b for d in pl["b"] for dep in d["deps"]):
+        idents = disamb_in_quantifier(pl)
+        if idents is None:
             return None
         try:
             a, b, res, subst, idmap = self._run(pl)
         except Exception as ex:
             return Failure("disambiguate-raises", repr(ex), pl)
-        flt = make_filter(pl["filter"])
-        all_a, vis_a = ia
-        all_b, vis_b = ib
-        hidden = (all_a - vis_a) | (all_b - vis_b)      # names that occur only in lhs indices
-        ren = {}
-        for k, v in subst.items():
-            if not isinstance(v, p.Variable):
-                return Failure("disambiguate-not-a-renaming", f"{k} -> {v!r}", pl)
-            ren[k] = v.name
-        want_keys = {n for n in all_a & all_b if flt(n)}
-
-        def classify(default_key, detail):
-            # the two recorded defects: a clash the code does not see because one side mentions
-            # the name only in a left-hand-side index; a fresh name that collides with such a name
-            lost = want_keys - set(ren)
-            if set(ren) <= want_keys and lost and all(n not in vis_a or n not in vis_b for n in lost):
-                return Failure("disambiguate-misses-lhs-only-identifier", detail, pl)
-            if set(ren) <= want_keys and any(v in hidden for v in ren.values()):
-                return Failure("disambiguate-fresh-name-hits-lhs-only-identifier", detail, pl)
-            return Failure(default_key, detail, pl)
-
-        if set(ren) != want_keys:
-            return classify("disambiguate-renames-wrong-set",
-                            f"renamed {sorted(ren)}, clashing identifiers that pass the filter: "
-                            f"{sorted(want_keys)}")
-        fresh = list(ren.values())
-        if len(set(fresh)) != len(fresh) or any(v in all_a | all_b for v in fresh):
-            return classify("disambiguate-name-not-fresh", f"renaming {ren}; identifiers in use "
-                            f"{sorted(all_a | all_b)}")
-        new_b = res[len(a):] if pl["fuse"] else res
-        if len(new_b) != len(b):
-            return Failure("disambiguate-length", f"{len(new_b)} statements from {len(b)}", pl)
-        if pl["fuse"]:
-            bad = check_fuse_step(a, new_b_before_fuse(b, ren), res, idmap) \
-                if len(set(ids_a)) == len(ids_a) and len(set(ids_b)) == len(ids_b) else None
-            if bad is not None:
-                return Failure("disfuse-" + bad[0], bad[1], pl)
-        for d, old, new in zip(pl["b"], b, new_b):
-            want = dict(d)
-            for f in ("lhs", "rhs", "cond"):
-                if f in d:
-                    want[f] = rename_all(d[f], ren)
-            if not pl["fuse"]:
-                if new.id != old.id or new.depends_on != old.depends_on:
-                    return Failure("disambiguate-touches-ids", f"{stmt_out(old)} became {stmt_out(new)}", pl)
-            w = mk_stmt({**want, "id": new.id, "deps": sorted(new.depends_on)})
-            if stmt_out(w) != stmt_out(new) or sstr(w) != sstr(new):
-                return Failure("disambiguate-inconsistent-renaming",
-                               f"{sstr(old)} became {sstr(new)}, renaming {ren} gives {sstr(w)}", pl)
-        after = stream_idents([stmt_payload(s) for s in new_b])
-        shared = {n for n in after[0] & all_a if flt(n)}
-        if shared:
-            return classify("disambiguate-still-shared", f"still shared afterwards: {sorted(shared)}")
-        return None
+        return judge_disamb(pl, idents, a, b, res, subst, idmap, pl)
 
     def shrink(self, pl):
         for side in ("a", "b"):
@@ -816,6 +930,427 @@ def new_b_before_fuse(b, ren):
                 d[f] = rename_all(d[f], ren)
         out.append(mk_stmt(d))
     return out
+
+# }}}
+
+
+# {{{ stream: histories — the statements that COME OUT of the utilities are used again
+
+# The property speaks about "a statement" and about "repeated fusion of already fused streams":
+# the statements a utility returns (copies with a renamed condition, a new id, remapped
+# dependencies) are statements like any other.  What they report as read / written has to describe
+# the left-hand side, right-hand side and condition they hold NOW, and a later disambiguation /
+# fusion that takes them as input has to see them as they are.  A history keeps the real objects
+# alive in registers; every operation takes registers as input and appends what it returns:
+#     disamb a b filter    disambiguate_identifiers(reg[a], reg[b], filter)        -> second stream
+#     disfuse a b filter   disambiguate_and_fuse(reg[a], reg[b], filter)           -> fused stream
+#     fuse a b             fuse_statement_streams_with_unique_ids(reg[a], reg[b])  -> fused stream
+#     rename r ren lhs     stmt.map_expressions(substitution ren, include_lhs=lhs) for every stmt
+#     copy r j field e     reg[r] with statement j replaced by stmt.copy(field=e)
+#     query r              the read / written sets and str() of reg[r] are asked for (no result)
+# (a == b is allowed: a stream fused with itself).
+
+POS_TAGS = {"lhs": "_l", "rhs": "_r", "cond": "_c"}
+
+
+def positional_stream(rng, n, g, idpool, excl):
+    """a random stream in which, with probability `excl` per statement and position, the
+    identifiers of that position (left-hand side / right-hand side / condition) are names that
+    occur in no other position (position-tagged), so that a clash with another stream built the
+    same way is a clash on a condition-only / rhs-only / lhs-only identifier"""
+    shared = rand_renaming(rng)
+    out = []
+    for d in rand_stream(rng, n, g, idpool, None, depth=2):
+        for f, tag in POS_TAGS.items():
+            if f in d:
+                ren = shared
+                if rng.random() < excl:
+                    ren = {k: k + tag for k in shared}
+                d[f] = rename_all(d[f], ren)
+        out.append(d)
+    return out
+
+
+def exclusive_statement(k, pos, name, other):
+    """a statement of kind `k` (asg / casg) in which `name` occurs ONLY at position `pos`
+    (target / index / rhs / cond); every other position uses names derived from `other`"""
+    N, o1, o2, o3 = p.Variable(name), p.Variable(other), p.Variable(other + "_r"), \
+        p.Variable(other + "_c")
+    lhs = N if pos == "target" else p.Subscript(o1, p.Sum((N, 1))) if pos == "index" else o1
+    rhs = p.Product((N, 2)) if pos == "rhs" else p.Sum((o2, 1))
+    cond = None
+    if k == "casg":
+        cond = p.Comparison(N, "<", o3) if pos == "cond" else p.Comparison(o3, "<", 1)
+    return lhs, rhs, cond
+
+
+HIST_SCRIPTS = [
+    # registers: 0 = first stream, 1 = second stream, 2.. = results
+    [("disamb", 0, 1)],
+    [("disfuse", 0, 1)],
+    [("disamb", 0, 1), ("fuse", 0, 2)],
+    [("disamb", 0, 1), ("disamb", 2, 1)],
+    [("disamb", 0, 1), ("disamb", 0, 2)],
+    [("disamb", 0, 1), ("disfuse", 1, 2)],
+    [("disfuse", 0, 1), ("disfuse", 2, 2)],
+    [("disfuse", 0, 1), ("disamb", 2, 2), ("disfuse", 2, 3)],
+    [("fuse", 0, 1), ("disfuse", 2, 2)],
+    [("query", 1), ("disamb", 0, 1), ("query", 2), ("disfuse", 0, 2)],
+    [("rename", 1), ("disamb", 0, 2)],
+    [("rename", 1), ("disamb", 1, 2), ("disfuse", 0, 3)],
+    [("copy", 1), ("disamb", 0, 2)],
+    [("disamb", 0, 1), ("copy", 2), ("disfuse", 0, 3)],
+    [("disamb", 0, 1), ("rename", 2), ("disfuse", 3, 3)],
+]
+
+
+class DerivedStream(Stream):
+    """histories of the utilities on long-lived statement objects: after every step (or, in the
+    other half of the cases, only at the end, so that nothing has asked the intermediate
+    statements anything) every statement of every register is judged by `judge_rw` against the
+    scan of its current fields, every disambiguation / fusion step by the same oracle as the
+    `disambiguate` / `fuse` streams (its inputs being statements earlier steps returned), every
+    `map_expressions` step against an independent renaming.  Model side: `imp-hist` replays the
+    history and lists the read / written sets of every derived statement."""
+    name = "derived-statements"
+    NAMES = ["x", "y", "z", "i", "j", "a", "t", "b", "x_0", "y_1", "x_c", "y_c", "a_l", "x_r"]
+
+    # -- generation ---------------------------------------------------------------------------
+    def _fill(self, rng, streams, script):
+        """turn a script of (op, registers…) into full operations on the given streams (sizes of
+        the registers are tracked so that `copy` can name a statement that exists)"""
+        kinds = [[(d["k"], d) for d in ds] for ds in streams]
+        ops = []
+        for step in script:
+            op = step[0]
+            if op in ("disamb", "disfuse"):
+                a, b = step[1], step[2]
+                f = {"default": rng.random() < 0.8,
+                     "except": rng.sample(self.NAMES, rng.randint(0, 2))}
+                ops.append({"op": op, "a": a, "b": b, "filter": f})
+                kinds.append(kinds[b] if op == "disamb" else kinds[a] + kinds[b])
+            elif op == "fuse":
+                ops.append({"op": "fuse", "a": step[1], "b": step[2]})
+                kinds.append(kinds[step[1]] + kinds[step[2]])
+            elif op == "query":
+                ops.append({"op": "query", "r": step[1]})
+            elif op == "rename":
+                olds = rng.sample(self.NAMES, rng.randint(1, 4))
+                ren = {o: rng.choice([o + "_9", o + rng.choice(SUFFIXES) + "q", "w"]) for o in olds}
+                if rng.random() < 0.3:        # a swap: the substitution is simultaneous
+                    x, y = rng.sample(self.NAMES, 2)
+                    ren.update({x: y, y: x})
+                ops.append({"op": "rename", "r": step[1], "ren": ren, "lhs": rng.random() < 0.75})
+                kinds.append(kinds[step[1]])
+            elif op == "copy":
+                r = step[1]
+                cands = [(j, f) for j, (k, _d) in enumerate(kinds[r]) if k != "nop"
+                         for f in (("lhs", "rhs", "cond") if k == "casg" else ("lhs", "rhs"))]
+                if not cands:
+                    # nothing to replace: an empty renaming keeps the script's register numbering
+                    ops.append({"op": "rename", "r": r, "ren": {}, "lhs": True})
+                    kinds.append(kinds[r])
+                    continue
+                j, f = rng.choice(cands)
+                n1, n2 = (p.Variable(n) for n in rng.sample(self.NAMES, 2))
+                if f == "lhs":
+                    e = rng.choice([n1, p.Subscript(n1, n2), p.Subscript(n1, p.Sum((n2, 1)))])
+                elif f == "rhs":
+                    e = rng.choice([n1, p.Sum((n1, n2)), p.Subscript(n1, n2), 3])
+                else:
+                    e = rng.choice([p.Comparison(n1, "<", n2), p.LogicalNot(n1), True,
+                                    p.LogicalAnd((n1, p.Comparison(n2, ">", 0)))])
+                ops.append({"op": "copy", "r": r, "j": j, "field": f, "expr": dumps(expr_to_sx(e))})
+                kinds.append(kinds[r])
+        return ops
+
+    def cases(self, rng, tier):
+        quick = tier == "quick"
+        # (1) exhaustive small: ONE identifier that occurs at exactly one position of a statement
+        # of the second stream and at one position of a statement of the first, every script
+        k = 0
+        for pos_b in ("cond", "rhs", "index", "target"):
+            for pos_a in ("rhs", "cond", "target"):
+                for kind_b in ("casg", "asg"):
+                    if pos_b == "cond" and kind_b == "asg":
+                        continue
+                    for script in HIST_SCRIPTS:
+                        k += 1
+                        if quick and k % 2 and script is not HIST_SCRIPTS[0]:
+                            continue
+                        name = rng.choice(["n", "x", "flag", "x_0", "k_1"])
+                        la, ra, ca = exclusive_statement("casg", pos_a, name, "u")
+                        lb, rb, cb = exclusive_statement(kind_b, pos_b, name, "v")
+                        a = [S("casg", "s", (), la, ra, ca), S("nop", "s_0", ("s",))]
+                        b = [S(kind_b, "s", (), lb, rb, cb),
+                             S("asg", "t", ("s",), p.Variable("v_q"), p.Sum((p.Variable("v"), 1)))]
+                        streams = [a, b]
+                        yield {"streams": streams, "ops": self._fill(rng, streams, script),
+                               "observe": "every" if k % 4 < 2 else "end"}
+        # (2) random streams with position-exclusive identifiers, scripted and random histories
+        n = 600 if quick else 12000
+        g = ExprGen(rng, malformed=0.0, floats=0.0, lists=False, foreign=False, cse=0.03,
+                    extra_nodes=False)
+        for i in range(n):
+            streams = [positional_stream(rng, rng.randint(1, 4), g, IDPOOL, rng.choice([0.0, 0.5, 0.9]))
+                       for _ in range(2)]
+            if i % 3 == 0:
+                script = rng.choice(HIST_SCRIPTS)
+            else:
+                script, nreg = [], 2
+                for _ in range(rng.randint(1, 4 if quick else 6)):
+                    op = rng.choice(["disamb", "disamb", "disfuse", "disfuse", "fuse", "rename",
+                                     "copy", "query"])
+                    r1 = rng.choice([nreg - 1, rng.randrange(nreg)])
+                    r2 = rng.choice([nreg - 1, r1, rng.randrange(nreg)])
+                    script.append((op, r1, r2) if op in ("disamb", "disfuse", "fuse") else (op, r1))
+                    if op != "query":
+                        nreg += 1
+            yield {"streams": streams, "ops": self._fill(rng, streams, script),
+                   "observe": "every" if i % 2 else "end"}
+
+    # -- running the history on the real code -----------------------------------------------------
+    MAX_STATEMENTS = 40
+
+    def _history(self, pl, observer=None):
+        """run the history; returns (registers of real objects, per-operation results); an
+        operation that raises ends the history with the exception as its result.
+        `observer(step, op, inputs, result)` is called after every operation (step -1: start)."""
+        from pymbolic import var
+        from pymbolic.imperative.transform import (
+            disambiguate_and_fuse, disambiguate_identifiers, fuse_statement_streams_with_unique_ids)
+        from pymbolic.mapper.substitutor import SubstitutionMapper, make_subst_func
+        regs = [mk_stream(ds) for ds in pl["streams"]]
+        results = []
+        if observer:
+            observer(-1, None, None, None, regs)
+        for step, op in enumerate(pl["ops"]):
+            kind = op["op"]
+            try:
+                if kind in ("disamb", "disfuse", "fuse"):
+                    a, b = regs[op["a"]], regs[op["b"]]
+                    if len(a) + len(b) > self.MAX_STATEMENTS:
+                        break
+                    if kind == "fuse":
+                        fused, idmap = fuse_statement_streams_with_unique_ids(a, b)
+                        out = (fused, None, idmap)
+                    elif kind == "disfuse":
+                        fused, subst, idmap = disambiguate_and_fuse(a, b, make_filter(op["filter"]))
+                        out = (fused, subst, idmap)
+                    else:
+                        new_b, subst = disambiguate_identifiers(a, b, make_filter(op["filter"]))
+                        out = (new_b, subst, None)
+                elif kind == "rename":
+                    m = SubstitutionMapper(make_subst_func({k: var(v) for k, v in op["ren"].items()}))
+                    out = ([s.map_expressions(m, include_lhs=op["lhs"]) for s in regs[op["r"]]],
+                           None, None)
+                elif kind == "copy":
+                    src = regs[op["r"]]
+                    field = {"lhs": "lhs", "rhs": "rhs", "cond": "condition"}[op["field"]]
+                    e = sx_to_expr(loads(op["expr"]))
+                    out = ([s.copy(**{field: e}) if j == op["j"] else s for j, s in enumerate(src)],
+                           None, None)
+                else:
+                    for s in regs[op["r"]]:
+                        s.get_read_variables(), s.get_written_variables(), sstr(s)
+                    out = (None, None, None)
+            except RecursionError:
+                raise
+            except Exception as ex:
+                results.append(ex)
+                break
+            results.append(out)
+            if out[0] is not None:
+                regs.append(out[0])
+            if observer:
+                observer(step, op, None, out, regs)
+        return regs, results
+
+    def _orders(self, pl):
+        """key order of the substitution each disambiguation step returned (= the order in which
+        the code iterated over the set of clashes: a parameter of the model)"""
+        try:
+            _regs, results = self._history(pl)
+        except RecursionError:
+            raise
+        return [list(r[1].keys()) if not isinstance(r, Exception) and r[1] is not None else []
+                for r in results]
+
+    def request(self, pl):
+        orders = self._orders(pl)
+        ops = []
+        for k, op in enumerate(pl["ops"]):
+            order = strs_req(orders[k]) if k < len(orders) else "()"
+            kind = op["op"]
+            if kind in ("disamb", "disfuse"):
+                f = op["filter"]
+                flt = f"({'true' if f['default'] else 'false'} {strs_req(f['except'])})"
+                ops.append(f"({kind} {flt} {order} {op['a']} {op['b']})")
+            elif kind == "fuse":
+                ops.append(f"(fuse {op['a']} {op['b']})")
+            elif kind == "rename":
+                ops.append(f"(rename {pairs_out(op['ren'].items())} "
+                           f"{'true' if op['lhs'] else 'false'} {op['r']})")
+            elif kind == "copy":
+                ops.append(f"(copy {op['r']} {op['j']} {op['field']} {op['expr']})")
+            else:
+                ops.append(f"(query {op['r']})")
+        # operations after the point where the real run stopped (size cap) are not sent
+        ops = ops[:len(orders)]
+        return "(imp-hist (" + " ".join(stream_req(ds) for ds in pl["streams"]) + ") " + \
+            " ".join(ops) + ")"
+
+    def run_impl(self, pl):
+        regs, results = self._history(pl)
+        outs = []
+        for reg in regs:
+            rw = " ".join(f"({set_out(s.get_read_variables)} {set_out(s.get_written_variables)})"
+                          for s in reg)
+            outs.append(f"({stream_out(reg)} ({rw}))")
+        reps = []
+        for r in results:
+            if isinstance(r, Exception):
+                reps.append(err_out(r))
+                continue
+            _out, subst, idmap = r
+            parts = []
+            if subst is not None:
+                if not all(isinstance(v, p.Variable) for v in subst.values()):
+                    return "(harness-error substitution value is not a variable)"
+                parts.append(pairs_out((k, v.name) for k, v in subst.items()))
+            if idmap is not None:
+                parts.append(pairs_out(sorted(idmap.items())))
+            reps.append("(" + " ".join(parts) + ")")
+        return "((" + " ".join(outs) + ") (" + " ".join(reps) + "))"
+
+    # -- the property on the history ------------------------------------------------------------
+    def oracle(self, pl):
+        found = []          # first failure with a key that is not a recorded finding wins
+        every = pl["observe"] == "every"
+
+        class Stop(Exception):
+            pass
+
+        def note(f):
+            if f is not None:
+                found.append(f)
+                if f.key not in KNOWN_KEYS:
+                    raise Stop
+
+        def observer(step, op, _inputs, out, regs):
+            if step < 0:
+                if every:
+                    for r, reg in enumerate(regs):
+                        note(judge_derived(reg, pl, f"register {r} (input)", only_new=False))
+                return
+            kind = op["op"]
+            where = f"step {step} ({kind})"
+            if kind in ("disamb", "disfuse"):
+                a, b = regs[op["a"]], regs[op["b"]]
+                if all(stmt_kind(s) for s in a + b):
+                    sub = {"a": [stmt_payload(s) for s in a], "b": [stmt_payload(s) for s in b],
+                           "filter": op["filter"], "fuse": kind == "disfuse"}
+                    idents = disamb_in_quantifier(sub)
+                    if idents is not None:
+                        f = judge_disamb(sub, idents, a, b, out[0], out[1], out[2], pl)
+                        if f is not None:
+                            f.detail = f"{where}: {f.detail}"
+                        note(f)
+            elif kind == "fuse":
+                a, b = regs[op["a"]], regs[op["b"]]
+                ids_a, ids_b = [s.id for s in a], [s.id for s in b]
+                if len(set(ids_a)) == len(ids_a) and len(set(ids_b)) == len(ids_b) and \
+                        all(dep in ids_b for s in b for dep in s.depends_on):
+                    bad = check_fuse_step(a, b, out[0], out[2])
+                    if bad is not None:
+                        note(Failure(bad[0], f"{where}: {bad[1]}", pl))
+            elif kind == "rename":
+                src = regs[op["r"]]
+                for pos, (old, new) in enumerate(zip(src, out[0])):
+                    d = stmt_payload(old)
+                    exprs = [sx_to_expr(loads(d[f])) for f in ("lhs", "rhs", "cond") if f in d]
+                    if not all(in_fragment(e) for e in exprs) or any(has_zero_cse(e) for e in exprs):
+                        continue
+                    for f in ("lhs", "rhs", "cond"):
+                        if f in d and (f != "lhs" or op["lhs"]):
+                            d[f] = rename_all(d[f], op["ren"])
+                    w = mk_stmt(d)
+                    if stmt_out(w) != stmt_out(new) or sstr(w) != sstr(new):
+                        note(Failure("map-expressions-inconsistent-renaming",
+                                     f"{where}, statement {pos}: {sstr(old)} became {sstr(new)}, renaming "
+                                     f"{op['ren']} (include_lhs={op['lhs']}) gives {sstr(w)}", pl))
+            if every and out[0] is not None:
+                note(judge_derived(out[0], pl, f"{where} result (register {len(regs) - 1})",
+                                   only_new=False))
+
+        try:
+            regs, results = self._history(pl, observer)
+            if results and isinstance(results[-1], Exception):
+                k = len(results) - 1
+                op = pl["ops"][k]
+                inputs = [regs[op[x]] for x in ("a", "b", "r") if x in op]
+                # the quantifier: dependencies of a second stream name statements of that stream
+                ok = op["op"] == "disamb" or op["op"] not in ("fuse", "disfuse") or all(
+                    dep in [s.id for s in regs[op["b"]]] for s in regs[op["b"]] for dep in s.depends_on)
+                if ok and all(judgeable(s) for reg in inputs for s in reg):
+                    note(Failure("derived-" + op["op"] + "-raises",
+                                 f"step {k} ({op['op']}): {results[-1]!r}", pl))
+            # at the end every register is asked, also in the histories that asked nothing before
+            for r, reg in enumerate(regs):
+                note(judge_derived(reg, pl, f"register {r} at the end of the history", only_new=False))
+        except Stop:
+            pass
+        new = [f for f in found if f.key not in KNOWN_KEYS]
+        return (new or found or [None])[0]
+
+    def shrink(self, pl):
+        ops = pl["ops"]
+        # drop trailing operations, then statements of the input streams, then simplify fields
+        if ops:
+            yield {**pl, "ops": ops[:-1]}
+        for k, o in enumerate(ops):
+            if o["op"] == "query":          # produces no register: the numbering stays
+                yield {**pl, "ops": ops[:k] + ops[k + 1:]}
+        if pl["observe"] == "every":
+            yield {**pl, "observe": "end"}
+        for i, ds in enumerate(pl["streams"]):
+            if any(o["op"] == "copy" and o["r"] == i for o in ops):
+                continue
+            for j in range(len(ds)):
+                gone = ds[j]["id"]
+                nd = [{**d, "deps": [x for x in d["deps"] if x != gone]} for d in ds[:j] + ds[j + 1:]]
+                yield {**pl, "streams": pl["streams"][:i] + [nd] + pl["streams"][i + 1:]}
+        for i, ds in enumerate(pl["streams"]):
+            for j, d in enumerate(ds):
+                for f in ("lhs", "rhs", "cond"):
+                    if f in d:
+                        for sx in itertools.islice(sx_shrinks(loads(d[f])), 8):
+                            nd = ds[:j] + [{**d, f: dumps(sx)}] + ds[j + 1:]
+                            yield {**pl, "streams": pl["streams"][:i] + [nd] + pl["streams"][i + 1:]}
+
+    def nontrivial_key(self, pl, model, impl):
+        return self.request(pl) if any(o["op"] != "query" for o in pl["ops"]) else None
+
+    def stats(self, pl, mo, io, acc):
+        acc["operations"] = acc.get("operations", 0) + len(pl["ops"])
+        for o in pl["ops"]:
+            acc["op:" + o["op"]] = acc.get("op:" + o["op"], 0) + 1
+        acc["observe:" + pl["observe"]] = acc.get("observe:" + pl["observe"], 0) + 1
+        if "(err" in io:
+            acc["error"] = acc.get("error", 0) + 1
+
+
+def judgeable(s):
+    """the statement lies inside the property's quantifier (left-hand side a variable or a
+    subscripted variable; node kinds both mappers take; no zero-child CSE)"""
+    k = stmt_kind(s)
+    if k is None:
+        return False
+    if k == "nop":
+        return True
+    fields = (s.lhs, s.rhs) + ((s.condition,) if k == "casg" else ())
+    return lhs_parts(s.lhs) is not None and all(in_fragment(e) and not has_zero_cse(e)
+                                                for e in fields)
 
 # }}}
 
@@ -1376,10 +1911,10 @@ def probe_known():
 PROP = Prop(
     id="C20",
     title="Statement-stream utilities keep programs well-formed",
-    lean_targets=["PV.Properties.C20", "PV.Properties.C20Table"],
+    lean_targets=["PV.Properties.C20", "PV.Properties.C20Table", "PV.Properties.C20Derived"],
     theorems=[],
     streams=[GenStream(), FuseStream(), RWStream(), DisambStream(), DotStream(), DotTextStream(),
-             DotFamilyStream(), DotTextFamilyStream()],
+             DotFamilyStream(), DotTextFamilyStream(), DerivedStream()],
     probes=[probe_known],
     extractors=[extract],
     trusted_base=["Lean 4.33 kernel; axioms propext, Classical.choice, Quot.sound only",
